@@ -5,6 +5,7 @@ from .. import core as C
 from .. import gen as G
 from .. import model as M
 
+
 TWINS = {}      # name -> fn(scenario) -> reason | None   (implementation-only metamorphic relations)
 
 
